@@ -48,7 +48,7 @@ func (f *ChannelPush) Call(s *slip.Scope, args slip.List, depth int) slip.Object
 	if !ok {
 		slip.TypePanic(s, depth, "channel", args[0], "channel")
 	}
-	ch <- args[1]
+	ch.Push(args[1])
 
 	return slip.Novalue
 }
